@@ -3040,7 +3040,8 @@ class GateIndsBasic(GateContract):
         if ok:
             d["ng-is-len(inds)"] = a.ng == a.inds.n
             d["targets-are-legs-of-the-network"] = cx.pre(a.tn)["legs"] is a.inds
-            d["contract-is-a-basic-mode"] = any(a.contract is x or a.contract == x for x in module_const(GATING, "_BASIC_GATE_CONTRACT")) \
+            d["contract-is-a-basic-mode"] = any(a.contract is x or (type(a.contract) is type(x) and a.contract == x)
+                                                for x in (False, True, "split", "reduce-split")) \
                 if not is_z3(a.contract) else False
             d["isparam-tells-the-kind-of-G"] = isinstance(a.G, GArr) and a.G.param == a.isparam
         return d
@@ -3181,6 +3182,8 @@ class GateIndsBasic(GateContract):
 
 
 GATE_LAZY = ("split-gate", "swap-split-gate", "auto-split-gate")
+GATE_BASIC = (False, True, "split", "reduce-split")
+GATE_VALID = GATE_BASIC + GATE_LAZY  # the seven documented values of ``contract`` (the specification's own list)
 
 
 def gate_mode_table(contract, ngc, isparam, valid):
@@ -3270,7 +3273,7 @@ class GateInds(GateContract):
         return super().call(cx, name, args, kwargs, node)
 
     def expected(self, case):
-        return gate_mode_table(case.contract, case.ngc, case.isparam, module_const(GATING, "_VALID_GATE_CONTRACT"))
+        return gate_mode_table(case.contract, case.ngc, case.isparam, GATE_VALID)
 
     def ensures_raise(self, a, exc, cx, case):
         if exc == "ValueError":
@@ -3308,3 +3311,81 @@ class GateInds(GateContract):
             d["isparam-passed-on"] = c.isparam is case.isparam
             d["info-passed-on"] = c.info is a.info
         return d
+
+
+# ------------------------------------------------------------------------------------------------------------
+# native replays (the solver models of this domain carry no numbers: a fixed small complex instance of the convention
+# each contract states is run on the REAL functions and compared with dense linear algebra)
+# ------------------------------------------------------------------------------------------------------------
+
+
+def _dense_embed(np, M, L, sites, d=2):
+    """operator M (on `sites`, in that order) embedded in L sites of dimension d"""
+    k = len(sites)
+    T = M.reshape([d] * (2 * k))
+    full = np.eye(d ** L, dtype=complex).reshape([d] * (2 * L))
+    out = np.tensordot(T, full, axes=(list(range(k, 2 * k)), list(sites)))
+    # axes now: (out_sites..., remaining rows..., cols...) -> move the new rows back to their positions
+    rest = [i for i in range(L) if i not in sites]
+    perm = [0] * L
+    for pos, s in enumerate(sites):
+        perm[s] = pos
+    for pos, s in enumerate(rest):
+        perm[s] = k + pos
+    out = np.transpose(out, perm + list(range(L, 2 * L)))
+    return out.reshape(d ** L, d ** L)
+
+
+def _replay_apply_op_op(self, model):
+    import numpy as np
+    import quimb.tensor as qtn
+    from quimb.tensor.tnag.core import tensor_network_apply_op_op
+    L, sites = 4, [1, 2]
+    B = qtn.MPO_rand(L, 2, dtype=complex, seed=7)
+    Asub = qtn.MPO_rand(len(sites), 2, dtype=complex, seed=8)
+    dA = Asub.to_dense()
+    A = qtn.MatrixProductOperator([t.data for t in Asub], sites=sites, L=L)
+    call = "tensor_network_apply_op_op(A on sites [1, 2] of 4, B)"
+    try:
+        R = tensor_network_apply_op_op(A, B, contract=True)
+        if sorted(R.outer_inds()) != sorted(B.outer_inds()):
+            return dict(call=call, observed=f"outer labels {R.outer_inds()}", reproduced=True)
+        err = float(np.abs(R.to_dense() - _dense_embed(np, dA, L, sites) @ B.to_dense()).max())
+    except Exception as e:  # noqa
+        return dict(call=call, observed=f"{type(e).__name__}: {e}"[:300], reproduced=True)
+    return dict(call=call, observed=dict(max_abs_error=err), reproduced=err > 1e-9)
+
+
+def _replay_dmrg_init(self, model):
+    import numpy as np
+    import quimb.tensor as qtn
+    L = 4
+    H = qtn.MPO_rand_herm(L, 3, dtype=complex, seed=3)
+    p0 = qtn.MPS_rand_state(L, 3, dtype=complex, seed=4)
+    dm = qtn.DMRG2(H, bond_dims=8, p0=p0)
+    got = complex(dm.TN_energy ^ all)
+    k = p0.to_dense()
+    want = complex(np.vdot(k, H.to_dense() @ k))
+    wrong = complex(np.vdot(k, H.to_dense().T @ k))
+    return dict(call="DMRG2(H complex hermitian, p0).TN_energy ^ all  vs  <p0|H|p0>",
+                observed=dict(got=str(got), want=str(want), transposed=str(wrong), ket_site_ind_id=dm._k.site_ind_id),
+                reproduced=abs(got - want) > 1e-9 * max(1, abs(want)) or dm._k.site_ind_id != p0.site_ind_id)
+
+
+def _replay_ptr_to_mpo(self, model):
+    import numpy as np
+    import quimb as qu
+    import quimb.tensor as qtn
+    L, keep = 5, [1, 3]
+    psi = qtn.MPS_rand_state(L, 3, dtype=complex, seed=5)
+    rho = psi.partial_trace_to_mpo(keep)
+    want = np.asarray(qu.ptr(psi.to_dense(), [2] * L, keep))
+    got = np.asarray(rho.to_dense())
+    return dict(call="MPS_rand_state(5, 3, complex).partial_trace_to_mpo([1, 3]).to_dense()  vs  qu.ptr",
+                observed=dict(err=float(np.abs(got - want).max()), err_vs_transpose=float(np.abs(got - want.T).max())),
+                reproduced=float(np.abs(got - want).max()) > 1e-9)
+
+
+ApplyOpOp.replay = _replay_apply_op_op
+DMRGInit.replay = _replay_dmrg_init
+PartialTraceToMPO.replay = _replay_ptr_to_mpo
